@@ -443,7 +443,6 @@ package transport
 //@   assert at call writeData#1 Z(size) <= Z(l.sendQuota) && l.sendQuota == old(l.sendQuota)
 //@   assert at call writeData#1 strQuota == int(l.oiws)-str.bytesOutStanding && size <= max(strQuota, 0)
 //@   assert at call writeData#1 arg2 == (dataItem.endStream && remainingBytes == 0)
-//@   assert at call writeData#1 implies(size == 0, isEmpty)
 //@   assert at call replenish#1 arg0 == size
 //@   assert at call Discard#1 arg1 == dSize
 //@   assert at call updateStreamAfterWrite#1 arg1 == str && str.bytesOutStanding == int(l.oiws)-strQuota+size && l.sendQuota == old(l.sendQuota)-uint32(size)
